@@ -218,7 +218,10 @@ def run(prog, chk, tier):
                    short_span(t["span"]), detail=show_bits(bits)[-200:] if bits else repr(val)[:300])
             okd = abs_window(dest, wb) == (4, 20)
             chk.ob(rule, "MessageBuilder::write_into: written big-endian at dest[4..20]", okd, short_span(t["span"]), detail=repr(dest)[:200])
-    chk.ob(rule, "MessageBuilder::write_into writes the 128-bit cookie||id word", found, wb.loc())
+    # where those bytes land, whichever way they are written (one 128-bit word whose bits are checked above, or the cookie as
+    # four bytes followed by the low 96 bits of the id): read off the content of the output buffer after write_into
+    from rules import content_e2 as CE
+    CE.header_clauses(prog, chk, {"cookie-tid"})
     # readers
     rd = ("call", r"BigEndian as byteorder::ByteOrder>::read_u128$",
           [("call", r"Index<std::ops::RangeFrom<usize>> for \[u8\]>::index$", [("any",), ("agg", r"RangeFrom::RangeFrom$", [("const", 4)])])])
